@@ -845,6 +845,60 @@ def check_path(prop, prog, meta, rec, timeout):
     return obs, {"feasible": True if feasible_known else None, "path": base}
 
 
+
+def run_lattice_program(prop, m, budget=60000):
+    """bounded stand-in (mode l): the real code, natively in f64, on a lattice of the declared domain"""
+    import itertools
+    rc, out, dt = run([SBIN, "--vars", m["prog"]], timeout=120)
+    vs = [(l.split()[1], float(l.split()[2]), float(l.split()[3])) for l in out.splitlines() if l.startswith("VAR ")]
+    if not vs:
+        o = Ob("S.%s.lattice" % m["prog"], "native-lattice", "bounded(lattice)", m["func"], m["desc"]); o.detail = "program declares no variables / does not run natively: " + out[-200:]
+        return [o]
+    g = max(5, min(48, int(budget ** (1.0 / len(vs)))))
+    axes = []
+    for n, lo, hi in vs:
+        pts = set([lo, hi] + [lo + (hi - lo) * i / (g - 1) for i in range(g)])
+        if lo < 0 < hi: pts.add(0.0)
+        # the positions just inside the bounds (the property's 'one billionth of the range away')
+        pts.add(lo + (hi - lo) * 1e-9); pts.add(hi - (hi - lo) * 1e-9)
+        axes.append(sorted(pts))
+    pts = list(itertools.product(*axes))
+    lines = "\n".join(" ".join("%s=%r" % (vs[i][0], p[i]) for i in range(len(vs))) for p in pts) + "\n"
+    t0 = time.time()
+    rc, out, dt = run([SBIN, "--eval-batch", m["prog"], "f64"], timeout=1200, input=lines)
+    bad, evaluated = {}, 0
+    for l in out.splitlines():
+        if not l.startswith("R "): continue
+        _, idx, names = l.split(" ", 2)
+        if names == "skip": continue
+        evaluated += 1
+        if names == "-": continue
+        for nm in names.split(","): bad.setdefault(nm, []).append(pts[int(idx)])
+    # the ensure names: from one evaluation at the centre
+    rc2, out2, _ = run([SBIN, "--eval", m["prog"], "f64"] + ["%s=%r" % (n, (lo + hi) / 2) for n, lo, hi in vs], timeout=60)
+    ens = [l.split()[1] for l in out2.splitlines() if l.startswith("ENSURE ")]
+    label = "bounded(lattice: %d points, %d per variable incl. bounds, zero and 1e-9 inside the bounds; f64)" % (len(pts), len(axes[0]))
+    obs = []
+    if evaluated == 0 or not ens:
+        o = Ob("S.%s.lattice" % m["prog"], "native-lattice", label, m["func"], m["desc"]); o.detail = "no lattice point was evaluated (vacuity guard): " + out[-200:]
+        return [o]
+    for nm in ens + (["PANIC"] if "PANIC" in bad else []):
+        o = Ob("S.%s.lattice.%s" % (m["prog"], nm), "native-lattice", label, m["func"], m["desc"] + " [" + nm + "]")
+        o.backend = "native execution of the real code (pv_sym --eval-batch)"; o.time = (time.time() - t0) / max(1, len(ens))
+        o.extra = {"points": len(pts), "evaluated": evaluated}
+        if nm in bad:
+            p = bad[nm][0]
+            model = {vs[i][0]: p[i] for i in range(len(vs))}
+            o.status = FAILED
+            o.detail = "the real code violates the contract at lattice point %s (%d of %d points)" % (model, len(bad[nm]), evaluated)
+            o.replay = write_replay(prop, o, {"program": m["prog"], "ensure": nm, "model_f64": model, "violating_points": len(bad[nm]),
+                                              "replay_cmd": "%s --eval %s f64 %s" % (SBIN, m["prog"], " ".join("%s=%r" % kv for kv in model.items()))})
+        else:
+            o.status = DISCHARGED
+        obs.append(o)
+    return obs
+
+
 def run_property(prop, tier, timeout=20, jobs=14, select=None):
     rc, out, dt = build()
     if rc != 0:
@@ -858,6 +912,10 @@ def run_property(prop, tier, timeout=20, jobs=14, select=None):
     obs = []
     tasks = []
     stats = {"programs": len(metas), "paths": 0, "infeasible_paths": 0, "feasible_paths": 0}
+    lattice_metas = [m for m in metas if m.get("modes", "SV") == ""]
+    metas = [m for m in metas if m.get("modes", "SV") != ""]
+    for m in lattice_metas:
+        obs += run_lattice_program(prop, m)
     for m in metas:
         rc, out, dt = run([SBIN, "--dump", m["prog"]], timeout=600)
         recs = []
